@@ -368,3 +368,19 @@ def wrap_signed(x, w):
     half = pow2(to_int(w) - 1)
     m = pymod(to_int(x) + half, pow2(w))
     return m - half
+
+
+# ---- uninterpreted strings (names) ----------------------------------------------------
+StrS = z3.DeclareSort("Str")
+S_LOWER = z3.Function("str_lower", StrS, StrS)
+S_STRIP = z3.Function("str_strip_underscores", StrS, StrS)
+S_CAT = z3.Function("str_cat", StrS, StrS, StrS)
+S_NUM = z3.Function("str_of_int", IntS, StrS)
+_lits = {}
+
+
+def str_lit(s: str):
+    """a concrete string as a constant of sort Str (no character-level reasoning)"""
+    if s not in _lits:
+        _lits[s] = z3.Const(f"lit:{s!r}", StrS)
+    return _lits[s]
